@@ -150,6 +150,9 @@ def worker_main(argv):
                 rec["tags"][t] = rec["tags"].get(t, 0) + 1
             if v["status"] == "refusal":
                 rec["refusals"][v["bucket"]] = rec["refusals"].get(v["bucket"], 0) + 1
+            if v["status"] in ("gave_up", "inconclusive"):
+                kk = f"{v['status']}:{v['bucket']}"
+                rec["extra"][kk] = rec["extra"].get(kk, 0) + 1
             if v["nontrivial"] and v["status"] in ("ok", "violation", "refusal"):
                 k = hashlib.sha1(str(v["key"]).encode()).hexdigest()[:16]
                 if k not in seen_nt:
